@@ -66,7 +66,7 @@ def run(ck):
     path = os.path.join(ck.work, "tla", "gen_specs.ndjson")
     rows = vp.read_ndjson(path)
     base = [r for r in rows if r["fam"] in ("F6", "F4")] + [r for r in rows if r["fam"] == "F1"][:: (12 if quick else 3)] \
-        + [r for r in rows if r["fam"] == "F2"][:: (40 if quick else 8)]
+        + [r for r in rows if r["fam"] == "F2"][:: (150 if quick else 25)] + [r for r in rows if r["fam"] == "F7"][:: (4 if quick else 1)]
     vp.write_ndjson(path, base)
     if ck.args.selftest:
         ck.run_harness(["syntax-mutants", "-in", "tla/gen_specs.ndjson", "-out", "tla/mutants.ndjson", "-shard", "1/40"])
